@@ -492,6 +492,37 @@ fn pack_a_impl<const MR: usize, const K_TILE: usize, L>(
     assert!(out.completed());
 }
 
+/// Return the zero points for the rows of an output tile.
+///
+/// Zero points passed to the GEMM call take precedence over the ones stored in
+/// the packed panel. Panels created by `GemmExecutor::prepack_a` always store
+/// zeros, because the quantization parameters are not known at that point.
+#[allow(unused)]
+pub fn tile_a_zero_points<const MR: usize>(
+    quant: Option<&[u8]>,
+    packed: &PackedAMeta<MR>,
+) -> [i32; MR] {
+    match quant {
+        Some(zp) => std::array::from_fn(|r| zp.get(r).map(|&z| z as i32).unwrap_or(0)),
+        None => packed.zero_points,
+    }
+}
+
+/// Return the zero points for the columns of an output tile.
+///
+/// See [`tile_a_zero_points`]. This is for kernels which use [`pack_b`], ie.
+/// which do not shift `i8` values to `u8` when packing.
+#[allow(unused)]
+pub fn tile_b_zero_points<const NR: usize>(
+    quant: Option<&[i8]>,
+    packed: &PackedBMeta<NR>,
+) -> [i32; NR] {
+    match quant {
+        Some(zp) => std::array::from_fn(|c| zp.get(c).map(|&z| z as i32).unwrap_or(0)),
+        None => packed.zero_points,
+    }
+}
+
 /// Extract the packed elements and row sums from a buffer packed by [`pack_a`].
 pub fn extract_packed_a<const MR: usize>(a: &[u8]) -> (&[u8], &PackedAMeta<MR>) {
     assert!(a.len() >= size_of::<PackedAMeta<MR>>());
